@@ -315,6 +315,59 @@ def fold_constants(tree) -> int:
     return f.count
 
 
+def unroll_literal_loops(tree) -> int:
+    """canonical form: `for T in (e1, .., ek): BODY` over a tuple / list display of at most 4 elements, BODY without break /
+    continue / else, is analysed as `T = e1; BODY; ..; T = ek; BODY` (a table-driven loop and its written-out form are the
+    same code); the elements are pure (names, constants, attribute chains, displays of those)"""
+    import copy as _copy
+    count = 0
+
+    def pure(e) -> bool:
+        return all(isinstance(x, (ast.Name, ast.Constant, ast.Attribute, ast.Tuple, ast.List, ast.expr_context))
+                   for x in ast.walk(e))
+
+    def plain(body) -> bool:
+        stack = list(body)
+        while stack:
+            st = stack.pop()
+            if isinstance(st, (ast.Break, ast.Continue)):
+                return False
+            if isinstance(st, (ast.For, ast.AsyncFor, ast.While, ast.FunctionDef, ast.AsyncFunctionDef, ast.ClassDef)):
+                continue
+            for field in ("body", "orelse", "finalbody"):
+                b = getattr(st, field, None)
+                if isinstance(b, list) and b and isinstance(b[0], ast.stmt):
+                    stack.extend(b)
+            for h in getattr(st, "handlers", []) or []:
+                stack.extend(h.body)
+        return True
+    for node in ast.walk(tree):
+        for field in ("body", "orelse", "finalbody"):
+            blk = getattr(node, field, None)
+            if not (isinstance(blk, list) and blk and isinstance(blk[0], ast.stmt)):
+                continue
+            i = 0
+            while i < len(blk):
+                st = blk[i]
+                if isinstance(st, ast.For) and isinstance(st.iter, (ast.Tuple, ast.List)) and 1 <= len(st.iter.elts) <= 4 \
+                        and not st.orelse and len(st.body) <= 8 and all(pure(e) for e in st.iter.elts) and plain(st.body) \
+                        and not any(isinstance(e, ast.Starred) for e in st.iter.elts):
+                    tnames = {x.id for x in ast.walk(st.target) if isinstance(x, ast.Name)}
+                    if not any(isinstance(x, ast.Name) and x.id in tnames for e in st.iter.elts for x in ast.walk(e)):
+                        new = []
+                        for e in st.iter.elts:
+                            asg = ast.Assign(targets=[_copy.deepcopy(st.target)], value=e)
+                            ast.copy_location(asg, st)
+                            ast.fix_missing_locations(asg)
+                            new.append(asg)
+                            new.extend(_copy.deepcopy(x) for x in st.body)
+                        blk[i:i + 1] = new
+                        count += 1
+                        continue        # re-examine from the same index (nested literal loops)
+                i += 1
+    return count
+
+
 def propagate_attribute_aliases(tree) -> int:
     """canonical form: `x = a.b.c` (a pure attribute chain; x bound exactly once in the function; the root `a` is self /
     cls / a parameter that is never rebound / a local bound exactly once) - every later read of `x` is analysed as
@@ -608,6 +661,7 @@ class ModuleInfo:
         self.relpath = relpath
         self.source = source
         self.tree = ast.parse(source, filename=path)
+        unroll_literal_loops(self.tree)
         split_parallel_assignments(self.tree)
         self.propagated_aliases = propagate_attribute_aliases(self.tree)
         self.expanded_callees = expand_conditional_callees(self.tree)
